@@ -97,6 +97,7 @@ def gen(g, count):
         recs = list(dict.fromkeys(x for x in recs if x not in leaves))
         book = [(n, [(r.choice(leaves), g.qty_exact()) for _ in range(r.randint(0, 4))]) for n in recs]
         foods = recs + [nm() for _ in range(2)] + leaves[:1]
+        foods.append(foods[0] + b'/' + g.word(2, 5, 0).encode())      # a logged category that is a path-prefix of another
         log = g.log(book=book, exact=True, unusual=0, notes=0, days=r.randint(1, 4))
         log = [(d, [(r.choice(foods), q) for f, q in ents], ns) for d, ents, ns in log]
         if r.random() < 0.4:
@@ -120,6 +121,9 @@ def gen(g, count):
         add('reg shorten colour', ['reg'], s={'shorten': True})
         add('summary colour', ['summary'], args=(log[0][0].strftime('%Y/%m/%d'),))
         add('summary plain', ['summary'], args=(log[0][0].strftime('%Y/%m/%d'),), gflags={'noColor': True})
+        add('bal', ['bal'], gflags={'noColor': True})
+        add('bal collapse', ['bal'], gflags={'noColor': True}, s={'collapse': True})
+        add('bal collapse-last', ['bal'], gflags={'noColor': True}, s={'collapseLast': True})
         add('quantity asc', ['report', 'quantity'], gflags={'noColor': True})
         add('quantity desc', ['report', 'quantity'], gflags={'noColor': True}, s={'desc': True})
         add('element-total asc', ['report', 'element-total'], args=(leaves[0],), gflags={'noColor': True})
@@ -189,6 +193,14 @@ def judge(ctx, groups, impl):
                         break
             if strip_ansi(o['reg shorten colour']) != o['reg shorten']:
                 bad(grp, 'reg shorten colour', 'coloured shortened register differs from the plain one', {}, 'colour-changes-text')
+            # collapse modes only join labels: the top-level amounts are the same in every mode
+            from fractions import Fraction
+            tops = {}
+            for k in ('bal', 'bal collapse', 'bal collapse-last'):
+                rows, _ = spec.parse_balance(o[k])
+                tops[k] = sorted(Fraction(a.decode()) for ind, _, a in rows if ind == 0)
+            if not (tops['bal'] == tops['bal collapse'] == tops['bal collapse-last']):
+                bad(grp, 'bal collapse', 'the top-level amounts of the balance differ between display modes', {k: [str(x) for x in v] for k, v in tops.items()}, 'collapse-changes-numbers')
             # desc: same rows, opposite order of values
             for kind in ('quantity', 'element-total'):
                 asc = spec.parse_value_rows(o[kind + ' asc'])
